@@ -30,7 +30,11 @@ SPEC = {
                    "pcs moved inside functions, function entries, unsymbolisable pcs mixed in, nothing symbolises), with the "
                    "frames read from runtime.CallersFrames for the same pcs sent along; dec 30% = real DecodeStack on "
                    "arbitrary strings (random bytes, quote/dot/newline-rich, mutated valid names); cache 20% = real "
-                   "StackCounter.Inc through generated chains with depth 0..64, pcs captured independently in the leaf, "
+                   "StackCounter.Inc through generated chains with depth 0..64, pcs captured independently in the leaf; the "
+                   "StackCounter comes from the public constructor counter.NewStack on the unopened default file (50%), a "
+                   "private unmapped file, or a private file opened (mapped) first; pairs of NewStack calls with ONE name and "
+                   "two depths on chains sharing their top frames; ReadStack (= countertest.ReadStackCounter) observed in "
+                   "that state and checked to be keyed by the expanded names with the counters' values; "
                    "cache read through an injected exporter. distinct = distinct case lines; every case compares "
                    "implementation output with the model and evaluates the property oracles on the implementation output"),
         Suite(name="stackconc", harness="vh_stackconc", runner="stackconc",
